@@ -479,3 +479,62 @@ def xsi_type_retag_leaves(sx, p):
     got = getattr(out.value, slot)
     sx.observe('delivered', type(got).__name__)
     return got is None or admissible(got)
+
+
+# ---------------------------------------------------------------- bare body style: the message itself is the primitive
+class _BareSvc(Service):
+    @rpc(Unicode, _returns=Unicode, _body_style='bare')
+    def say(ctx, s):
+        return s
+
+    @rpc(Integer, _returns=Integer, _body_style='bare')
+    def count(ctx, n):
+        return n
+
+    @rpc(Boolean, _returns=Boolean, _body_style='bare')
+    def flag(ctx, b):
+        return b
+
+
+_BARE_APPS = {}
+_BARE_ADM = {'say': (str,), 'count': (int,), 'flag': (bool,)}
+
+
+def _bare_app(pname):
+    if pname not in _BARE_APPS:
+        from spyne.server import ServerBase
+        P = {'json': JsonDocument, 'yaml': YamlDocument, 'msgpack': MessagePackDocument}[pname]
+        app = Application([_BareSvc], 'tns', in_protocol=P(validator='soft'), out_protocol=P())
+        _BARE_APPS[pname] = (app, ServerBase(app))
+    return _BARE_APPS[pname]
+
+
+@harness('C04', params=[(pn, m, kind) for pn in ('json', 'yaml', 'msgpack') for m in sorted(_BARE_ADM) for kind in KINDS],
+         label=lambda p: '%s method=%s kind=%s' % p,
+         functions=['spyne.protocol.dictdoc.hier.HierDictDocument.deserialize', 'spyne.protocol.dictdoc.hier.HierDictDocument._from_dict_value'],
+         bounds={'document': '{method: value} for a bare-style method declared with Unicode, Integer or Boolean; the value of each kind '
+                             '(null, boolean, integer, float, text, list, map; payload symbolic); soft validation'})
+def bare_primitive_kinds(sx, p):
+    """bare body style: the value under the method key goes through the same checks as a member - user code receives the
+    declared native type (or None) or the request is refused"""
+    from spyne.context import MethodContext
+    pname, meth, kind = p
+    app, server = _bare_app(pname)
+    prot = app.in_protocol
+    v = _value_of_kind(sx, kind, 'v')
+
+    def run():
+        ctx = MethodContext(server, MethodContext.SERVER)
+        ctx.in_document = {meth: v}
+        prot.decompose_incoming_envelope(ctx, prot.REQUEST)
+        ctx, = prot.generate_method_contexts(ctx)
+        prot.deserialize(ctx, prot.REQUEST)
+        return ctx.in_object
+    try:
+        out = run_soft(run)
+    except Exception as e:
+        sx.outside('non-fault exception %s escapes (counted under C10)' % type(e).__name__)
+    sx.observe('accepted', out.accepted)
+    if not out.accepted:
+        return is_client_validation_fault(out.fault)
+    return _admissible(out.value, _BARE_ADM[meth])
